@@ -367,6 +367,71 @@ pub enum Via {
     Serde,
     /// replaced by its clone (the original is dropped)
     Clone,
+    /// another instance with the SAME parameters that has already consumed a longer, unrelated
+    /// stream is overwritten with `clone_from(&instance)` and takes its place
+    CloneFromUsed,
+    /// as above, but the overwritten instance was built with LARGER periods and another multiplier
+    CloneFromBigger,
+}
+
+pub const VIAS: [Via; 4] = [Via::Serde, Via::Clone, Via::CloneFromUsed, Via::CloneFromBigger];
+
+impl Via {
+    pub fn text(self) -> &'static str {
+        match self {
+            Via::Plain => "used as it is",
+            Via::Serde => "serialized with bincode and restored",
+            Via::Clone => "replaced by its clone",
+            Via::CloneFromUsed => "copied with clone_from into an instance of the same parameters that had already consumed another stream",
+            Via::CloneFromBigger => "copied with clone_from into an instance built with larger periods (and another multiplier) that had already consumed another stream",
+        }
+    }
+    pub fn tag(self) -> &'static str {
+        match self {
+            Via::Plain => "plain",
+            Via::Serde => "serde",
+            Via::Clone => "clone",
+            Via::CloneFromUsed => "clone_from(used)",
+            Via::CloneFromBigger => "clone_from(bigger)",
+        }
+    }
+}
+
+/// Pass the instance through the identity transformation `via`.
+pub fn apply_via(cfg: &Cfg, s: Box<dyn Subject>, via: Via) -> Box<dyn Subject> {
+    match via {
+        Via::Plain => s,
+        Via::Serde => {
+            let bytes = s.ser().expect("harness: serialize");
+            s.de(&bytes).expect("harness: deserialize")
+        }
+        Via::Clone => s.dup(),
+        Via::CloneFromUsed | Via::CloneFromBigger => {
+            let mut tcfg = *cfg;
+            if via == Via::CloneFromBigger {
+                for p in tcfg.p.iter_mut().take(cfg.kind.nperiods()) {
+                    if *p < (1 << 20) {
+                        *p += 3;
+                    }
+                }
+                if cfg.kind.has_mult() {
+                    tcfg.mult = cfg.mult + 1.0;
+                }
+            }
+            let w = tcfg.max_period().min(64);
+            let mut t = make(&tcfg);
+            for i in 0..2 * w + 3 {
+                let x = 1000.0 + (i % 5) as f64 * 37.5;
+                if cfg.kind.has_scalar() {
+                    t.apply(&Op::S(x));
+                } else {
+                    t.apply(&Op::B(Bar { o: x, h: x * 1.5, l: x * 0.5, c: x, v: 3.0 }));
+                }
+            }
+            assert!(t.assign_from(s.as_ref()), "harness: clone_from between different indicator types");
+            t
+        }
+    }
 }
 
 /// As `replay_last_caught`, but the instance goes through an identity transformation (serde round
@@ -382,13 +447,7 @@ pub fn replay_last_via(cfg: &Cfg, ops: &[Op], via: Via) -> Result<Out, usize> {
         let mut last = Out::NONE;
         for (i, op) in ops.iter().enumerate() {
             if i + 1 == ops.len() {
-                s = match via {
-                    Via::Serde => {
-                        let bytes = s.ser().expect("harness: serialize");
-                        s.de(&bytes).expect("harness: deserialize")
-                    }
-                    _ => s.dup(),
-                };
+                s = apply_via(cfg, s, via);
             }
             last = s.apply(op);
             step += 1;
@@ -455,10 +514,9 @@ pub fn seq_job_via(
                     let before = out.violations.len();
                     check(&ops, &last, out);
                     if via != Via::Plain && out.violations.len() > before {
-                        let what = if via == Via::Serde { "serialized with bincode and restored" } else { "replaced by its clone" };
                         for v in out.violations[before..].iter_mut() {
-                            v.detail.push_str(&format!(" [the instance was {} right before the last operation; without that step the same history passes]", what));
-                            v.extra.insert("checkpoint".into(), format!("{}@{}", if via == Via::Serde { "serde" } else { "clone" }, ops.len() - 1));
+                            v.detail.push_str(&format!(" [the instance was {} right before the last operation; without that step the same history passes]", via.text()));
+                            v.extra.insert("checkpoint".into(), format!("{}@{}", via.tag(), ops.len() - 1));
                         }
                     }
                     if ops.len() >= depth.min(4) && out.stats.samples.len() < 3 {
